@@ -433,10 +433,18 @@ def atIdx {β : Type} (l : List β) (i : Int) : R β :=
   | some x => .ok x
   | none => .error .panic
 
+/-- `idx.map (data[·])` with Go's bounds check; the array is only there to make the lookups constant-time -/
+def gather {β : Type} (data : List β) (idx : List Int) : R (List β) :=
+  let arr := data.toArray
+  idx.mapM (fun (i : Int) => if i < 0 then .error .panic else
+    match arr[i.toNat]? with
+    | some x => .ok x
+    | none => .error .panic)
+
 /-- `meshops.Unweld` -/
 def unweld (m : MeshVal α) : R (MeshVal α) := do
   let attrs ← m.attrs.mapM (fun a => do
-    let d ← m.indices.mapM (fun i => atIdx a.data i)
+    let d ← gather a.data m.indices
     pure (⟨a.dim, a.name, d⟩ : Attr α))
   pure { m with indices := (List.range m.indices.length).map Int.ofNat, attrs := attrs }
 
@@ -1063,7 +1071,7 @@ def cornerVals (m : MeshVal α) (dim : Nat) (name : Bytes) : Option (List (List 
   if m.indices.isEmpty then some [] else
   match m.find dim name with
   | none => none
-  | some a => m.indices.mapM (fun i => (atIdx a.data i).toOption)
+  | some a => (gather a.data m.indices).toOption
 
 def primCount (m : MeshVal α) : Nat :=
   match m.topo with
